@@ -379,6 +379,7 @@ def translate_source(src, file, specs):
 # loop, list appends, other slices, calls that are not listed, writes to parameters, array aliases, scalars carried
 # from one iteration to the next, statements between the loop and the `return`).
 NAT, ARRI, ARRN, SEQ, OPTB = "nat", "arri", "arrn", "seq", "optb"
+LSTN = "lstn"   # fragment 2b only: a Python list of indices built with `.append` (state of a list-append scan)
 _NET = {"idxs_ds": ARRN, "seq": SEQ, "data": ARRI, "nodata": INT}
 SWEEPS = [
     ("accuflux", "streams.py", "accuflux", _NET),
@@ -395,7 +396,7 @@ def optGetB (m : Option (Array Bool)) (i : Nat) : Bool :=
   | some a => a[i]!
 """
 SW_TYPES = {NAT: "Nat", INT: "Int", BOOL: "Bool", ARRI: "Array Int", ARRN: "Array Nat", SEQ: "List Nat",
-            OPTB: "Option (Array Bool)"}
+            OPTB: "Option (Array Bool)", LSTN: "List Nat"}
 SW_RESERVED = {"optGetB", "Array", "List", "Option", "some", "none", "size", "length", "reverse", "range", "foldl",
                "setIfInBounds", "replicate"}
 
@@ -429,9 +430,12 @@ def is_doc(s):
 
 
 class SwTr:
-    def __init__(self, module_bound, np_names):
+    def __init__(self, module_bound, np_names, ext=False, resolver=None):
         self.module_bound = module_bound
         self.np_names = np_names
+        self.ext = ext              # fragment 2b (Generated/Sweeps2.lean): the constructs marked `2b` below
+        self.resolver = resolver    # 2b: (module alias, function) -> (lean name, params, kinds, result type)
+        self.callees = set()        # lean names of the kernels called by the initialisations
 
     # ---------------- scalar expressions ----------------
     def pair(self, l, r, env):
@@ -569,11 +573,50 @@ class SwTr:
                 if tv not in (INT, NAT):
                     raise Unsupported("np.full with a non-scalar fill value")
                 return f"Array.replicate {k} {v}", (ARRI if tv == INT else ARRN)
+            if self.ext and self.resolver is not None and base not in env:
+                return self.kernel_call(base, attr, n, env)
             raise Unsupported(f"call of `{base}.{attr}`")
+        if self.ext and isinstance(n, ast.List) and not n.elts:
+            return "([] : List Nat)", LSTN          # 2b: `lst = []` (a list of indices)
         e, t = self.ex(n, env)
         if t not in (INT, NAT, BOOL):
             raise Unsupported("array alias / non-scalar initialisation")
         return e, t
+
+    def kernel_call(self, base, attr, n, env):
+        """2b: `x = mod.kernel(a, k=b, …)` where `mod.kernel` is itself a translated sweep kernel; every parameter of the
+        callee must be passed explicitly (defaults are not modelled) by a name / scalar expression of the declared kind"""
+        lean, cparams, ckinds, tres = self.resolver(base, attr)
+        given = {}
+        if len(n.args) > len(cparams):
+            raise Unsupported(f"call of `{base}.{attr}` with too many arguments")
+        for p, a in zip(cparams, n.args):
+            if isinstance(a, ast.Starred):
+                raise Unsupported("starred argument")
+            given[p] = a
+        for k in n.keywords:
+            if k.arg is None or k.arg not in cparams or k.arg in given:
+                raise Unsupported(f"call of `{base}.{attr}`: keyword `{k.arg}`")
+            given[k.arg] = k.value
+        out = []
+        for p in cparams:
+            if p not in given:
+                raise Unsupported(f"call of `{base}.{attr}` relies on the default of `{p}` (defaults are not modelled)")
+            want = ckinds.get(p, INT)
+            a = given[p]
+            if want in (ARRI, ARRN, SEQ, OPTB):
+                if not (isinstance(a, ast.Name) and env.get(a.id) == want):
+                    raise Unsupported(f"call of `{base}.{attr}`: argument `{p}` is not a name of kind {want}")
+                out.append(sname(a.id))
+            else:
+                e, t = self.ex(a, env, want=want)
+                if t != want:
+                    raise Unsupported(f"call of `{base}.{attr}`: argument `{p}` has type {t}, declared {want}")
+                out.append(e)
+        if tres not in (ARRI, ARRN, INT, NAT, BOOL):
+            raise Unsupported(f"call of `{base}.{attr}`: result type")
+        self.callees.add(lean)
+        return f"{lean} " + " ".join(out), tres
 
     # ---------------- loop body (continuation style) ----------------
     def body(self, stmts, env, ind, state, frozen):
@@ -586,6 +629,38 @@ class SwTr:
             return self.body(rest, env, ind, state, frozen)
         if isinstance(s, ast.Continue):
             return pad + tuple_text([sname(x) for x in state]) + "\n"
+        if self.ext and isinstance(s, ast.Assign) and len(s.targets) == 1 and isinstance(s.targets[0], ast.Tuple):
+            # 2b: `a, b = e1, e2` - all right-hand sides are evaluated first (one temporary tuple), then bound
+            tgt, val = s.targets[0], s.value
+            if not (isinstance(val, ast.Tuple) and len(val.elts) == len(tgt.elts) >= 2
+                    and all(isinstance(x, ast.Name) for x in tgt.elts)):
+                raise Unsupported("unpacking: not `names = tuple of the same arity`")
+            names = [x.id for x in tgt.elts]
+            if len(set(names)) != len(names) or any(x in frozen for x in names):
+                raise Unsupported("unpacking into repeated names / names bound outside the loop")
+            vals = [self.ex(v, env) for v in val.elts]
+            if any(t not in (INT, NAT, BOOL) for _, t in vals):
+                raise Unsupported("non-scalar local inside the loop")
+            tt = TUP(*[t for _, t in vals])
+            env2 = dict(env)
+            for x, (_, t) in zip(names, vals):
+                env2[x] = t
+            head = f"{pad}let tup' : {sw_type(tt)} := ({', '.join(e for e, _ in vals)})\n" + "".join(
+                f"{pad}let {sname(x)} : {sw_type(t)} := {proj(chr(116) + 'up' + chr(39), len(names), k)}\n"
+                for k, (x, (_, t)) in enumerate(zip(names, vals)))
+            return head + self.body(rest, env2, ind, state, frozen)
+        if self.ext and isinstance(s, ast.Expr) and isinstance(s.value, ast.Call):
+            # 2b: `lst.append(i)` on a list created by `lst = []` -> snoc
+            c = s.value
+            if not (isinstance(c.func, ast.Attribute) and c.func.attr == "append" and isinstance(c.func.value, ast.Name)
+                    and c.func.value.id in state and env.get(c.func.value.id) == LSTN
+                    and len(c.args) == 1 and not c.keywords):
+                raise Unsupported("expression statement other than `<list created before the loop>.append(index)`")
+            e, t = self.ex(c.args[0], env, want=NAT)
+            if t != NAT:
+                raise Unsupported("a non-index is appended")
+            a = sname(c.func.value.id)
+            return f"{pad}let {a} : List Nat := {a} ++ [{e}]\n" + self.body(rest, env, ind, state, frozen)
         if isinstance(s, ast.Assign) or isinstance(s, ast.AugAssign):
             if isinstance(s, ast.Assign):
                 if len(s.targets) != 1:
@@ -611,7 +686,7 @@ class SwTr:
                 return f"{pad}let {sname(tgt.id)} : {sw_type(t)} := {e}\n" + self.body(rest, env2, ind, state, frozen)
             if isinstance(tgt, ast.Subscript) and isinstance(tgt.value, ast.Name):
                 a = tgt.value.id
-                if a not in state:
+                if a not in state or env[a] not in (ARRI, ARRN):
                     raise Unsupported(f"write to `{a}` which is not an array created by the initialisations")
                 if isinstance(tgt.slice, (ast.Slice, ast.Tuple)):
                     raise Unsupported("slice assignment")
@@ -639,8 +714,9 @@ def tuple_text(xs):
     return xs[0] if len(xs) == 1 else "(" + ", ".join(xs) + ")"
 
 
-def translate_sweep(tree, file, lean_name, py_name, kinds):
-    """-> (lean text: `<name>_step` and `<name>`, None) or (marker text, reason)"""
+def translate_sweep(tree, file, lean_name, py_name, kinds, ext=False, resolver=None, info=None):
+    """-> (lean text: `<name>_step` and `<name>`, None) or (marker text, reason); `ext` switches fragment 2b on;
+    `info` (a dict) receives the parameter list and the result type of a translated kernel"""
     try:
         fd = find_function(tree, py_name)
         a = fd.args
@@ -654,7 +730,7 @@ def translate_sweep(tree, file, lean_name, py_name, kinds):
             raise Unsupported("parameter names collide")
         env = {p: kinds.get(p, INT) for p in params}
         bound, _ = module_defs(tree)
-        tr = SwTr(bound, numpy_aliases(tree))
+        tr = SwTr(bound, numpy_aliases(tree), ext, resolver)
         stmts = [s for s in fd.body if not is_doc(s) and not isinstance(s, ast.Pass)]
         loops = [k for k, s in enumerate(stmts) if isinstance(s, ast.For)]
         if len(loops) != 1:
@@ -701,14 +777,18 @@ def translate_sweep(tree, file, lean_name, py_name, kinds):
             for t in tgts:
                 if isinstance(t, ast.Subscript) and isinstance(t.value, ast.Name) and t.value.id not in written:
                     written.append(t.value.id)
+            if ext and isinstance(x, ast.Call) and isinstance(x.func, ast.Attribute) and x.func.attr == "append" \
+                    and isinstance(x.func.value, ast.Name) and x.func.value.id not in written:
+                written.append(x.func.value.id)
         for w in written:
-            if w not in locals_ or env[w] not in (ARRI, ARRN):
+            if w not in locals_ or env[w] not in ((ARRI, ARRN, LSTN) if ext else (ARRI, ARRN)):
                 raise Unsupported(f"write to `{w}` which is not an array created by the initialisations")
         state = [x for x in locals_ if x in written]
         if not state:
             raise Unsupported("the loop writes no array")
         names = params + locals_ + [var]
-        if len(set(sname(p) for p in names)) != len(names) or "st'" in names:
+        if len(set(sname(p) for p in names)) != len(names) or "st'" in names \
+                or any(sname(p) in tr.callees for p in names):
             raise Unsupported("names collide")
         env_body = dict(env)
         env_body[var] = NAT
@@ -723,6 +803,12 @@ def translate_sweep(tree, file, lean_name, py_name, kinds):
         for e in elts:
             if isinstance(e, ast.Name) and env.get(e.id) in (ARRI, ARRN):
                 rets.append((sname(e.id), env[e.id]))
+            elif ext and isinstance(e, ast.Call) and isinstance(e.func, ast.Attribute) and e.func.attr == "array" \
+                    and isinstance(e.func.value, ast.Name) and e.func.value.id in tr.np_names \
+                    and e.func.value.id not in env and 1 <= len(e.args) <= 2 and isinstance(e.args[0], ast.Name) \
+                    and env.get(e.args[0].id) == LSTN and all(k.arg == "dtype" for k in e.keywords) \
+                    and len(e.args) + len(e.keywords) <= 2:
+                rets.append((sname(e.args[0].id), LSTN))    # 2b: `np.array(lst, dtype)` - the list itself
             else:
                 txt, t = tr.ex(e, env)
                 if t not in (INT, NAT, BOOL):
@@ -755,6 +841,8 @@ def translate_sweep(tree, file, lean_name, py_name, kinds):
                 f"/-- `{file[:-3]}.{py_name}({', '.join(params)})` translated by harness/extract_fn.py "
                 f"(source sha1 {sha}) -/\n"
                 f"def {lean_name} {sig} : {sw_type(tres)} :=\n{lets}{fold}  {ret_text}\n")
+        if info is not None:
+            info.update(params=params, tres=tres, kinds=dict(kinds))
         return text, None
     except Unsupported as e:
         reason = str(e).replace("-/", "- /")
@@ -771,6 +859,118 @@ def translate_sweep_source(src, file, specs):
         out.append(text)
         status[lean_name] = reason
     return "\n".join(out), status
+
+
+# -----------------------------------------------------------------------------------------
+# fragment 2b (extension C08_fn) -> Generated/Sweeps2.lean (same namespace, imports Sweeps.lean). Fragment 2 plus:
+#   loop body        `a, b = e1, e2` (names local to the iteration, scalar right-hand sides, evaluated before binding),
+#                    `lst.append(e)` (e index-typed) on a list created by `lst = []` before the loop -> `lst ++ [e]`
+#   initialisations  `lst = []` (a list of indices), `x = mod.kernel(args, kw=…)` where `mod` is bound exactly once at
+#                    module level by `from . import mod` and `mod.kernel` is listed in `KCALLS` and is itself translated
+#                    (fragment 2) from the same working tree; every parameter of the callee passed explicitly
+#   return           also `np.array(lst[, dtype])` of such a list (returned as `List Nat`)
+# The state of the fold may therefore contain `List Nat` components. Everything else is refused as in fragment 2;
+# `translate_sweep_source` (fragment 2) keeps refusing these constructs.
+_ORD = {"idxs_ds": ARRN, "seq": SEQ, "mask": OPTB}
+SWEEPS2 = [
+    ("strahler_order", "streams.py", "strahler_order", _ORD),
+    ("stream_order", "streams.py", "stream_order", dict(_ORD, idxs_us_main=ARRN, mv=NAT)),
+    ("pit_indices", "core.py", "pit_indices", {"idxs_ds": ARRN}),
+    ("tributaries", "basins.py", "_tributaries", {"idxs_ds": ARRN, "seq": SEQ, "strord": ARRI}),
+]
+# kernels that may be called by an initialisation: (module, function) -> lean name in SWEEPS
+KCALLS = {("core", "upstream_count"): "upstream_count"}
+
+
+def sibling_imports(tree):
+    """local name -> module, for names bound exactly once at module level, by `from . import m` / `from pyflwdir import m`"""
+    bound, _ = module_defs(tree)
+    count, out = {}, {}
+    for s in ast.walk(tree):
+        if isinstance(s, ast.Name) and isinstance(s.ctx, (ast.Store, ast.Del)):
+            count[s.id] = count.get(s.id, 0) + 1
+        elif isinstance(s, (ast.FunctionDef, ast.ClassDef, ast.AsyncFunctionDef)):
+            count[s.name] = count.get(s.name, 0) + 1
+            for a in s.args.args + s.args.kwonlyargs + s.args.posonlyargs if not isinstance(s, ast.ClassDef) else []:
+                count[a.arg] = count.get(a.arg, 0) + 1
+        elif isinstance(s, (ast.Import, ast.ImportFrom)):
+            for a in s.names:
+                x = (a.asname or a.name).split(".")[0]
+                count[x] = count.get(x, 0) + 1
+    for s in tree.body:
+        if isinstance(s, ast.ImportFrom) and ((s.level == 1 and s.module is None) or (s.level == 0 and s.module == "pyflwdir")):
+            for a in s.names:
+                x = a.asname or a.name
+                if count.get(x) == 1 and x in bound:
+                    out[x] = a.name
+    return out
+
+
+def make_resolver(tree, sources, kcalls=None, sweeps=None):
+    """sources: module name -> source text (or a callable returning it) of the sibling modules"""
+    kcalls = KCALLS if kcalls is None else kcalls
+    sweeps = SWEEPS if sweeps is None else sweeps
+    sib = sibling_imports(tree)
+
+    def resolver(base, attr):
+        if base not in sib:
+            raise Unsupported(f"call of `{base}.{attr}`")
+        mod = sib[base]
+        if (mod, attr) not in kcalls:
+            raise Unsupported(f"call of `{base}.{attr}` (not a listed kernel)")
+        lean = kcalls[(mod, attr)]
+        spec = [x for x in sweeps if x[0] == lean and x[1] == mod + ".py" and x[2] == attr]
+        if len(spec) != 1:
+            raise Unsupported(f"callee `{mod}.{attr}` is not a translated kernel")
+        try:
+            src = sources[mod]() if callable(sources.get(mod)) else sources[mod]
+            ctree = ast.parse(src)
+        except (KeyError, OSError, SyntaxError) as e:
+            raise Unsupported(f"callee module `{mod}` cannot be read: {type(e).__name__}")
+        info = {}
+        _, reason = translate_sweep(ctree, mod + ".py", lean, attr, spec[0][3], info=info)
+        if reason is not None:
+            raise Unsupported(f"callee `{mod}.{attr}` is outside the fragment: {reason}")
+        return lean, info["params"], info["kinds"], info["tres"]
+    return resolver
+
+
+def translate_sweep2_source(src, file, specs, sources=None, kcalls=None, sweeps=None):
+    """fragment 2b: specs [(lean name, python name, kinds)] -> (lean text, {lean name: reason or None})"""
+    tree = ast.parse(src)
+    res = make_resolver(tree, sources or {}, kcalls, sweeps)
+    out, status = [], {}
+    for lean_name, py_name, kinds in specs:
+        text, reason = translate_sweep(tree, file, lean_name, py_name, kinds, ext=True, resolver=res)
+        out.append(text)
+        status[lean_name] = reason
+    return "\n".join(out), status
+
+
+def render_sweeps2(repo=None):
+    repo = repo or REPO
+    out = ["import PfVerif.Generated.Sweeps",
+           "/-! GENERATED by harness/extract_fn.py from /repo - do not edit. Sweep kernels of fragment 2b (tuple assignment,",
+           "an initialisation that calls a translated kernel of `Sweeps.lean`, list-append scans with a `List Nat` state).",
+           "Value arrays are unbounded `Int` (the uint8 / int32 storage of the code is the subject of C16). -/",
+           "set_option linter.unusedVariables false", "namespace Pf.Generated.Sw", ""]
+    status = {}
+
+    def reader(mod):
+        return lambda: open(os.path.join(repo, "pyflwdir", mod + ".py")).read()
+    sources = {m: reader(m) for (m, _f) in KCALLS}
+    for lean_name, file, py_name, kinds in SWEEPS2:
+        path = os.path.join(repo, "pyflwdir", file)
+        try:
+            src = open(path).read()
+            text, st = translate_sweep2_source(src, file, [(lean_name, py_name, kinds)], sources)
+        except (OSError, SyntaxError) as e:
+            text = f"/-- `{file}` could not be parsed: {type(e).__name__} -/\ndef unsupported_{lean_name} : Unit := ()\n"
+            st = {lean_name: f"{type(e).__name__}"}
+        out.append(text)
+        status.update(st)
+    out.append("end Pf.Generated.Sw")
+    return "\n".join(out) + "\n", status
 
 
 def render_sweeps(repo=None):
@@ -820,7 +1020,9 @@ def generate(gen_dir, write_if_changed):
     a = write_if_changed(os.path.join(gen_dir, "Funcs.lean"), text)
     text2, _ = render_sweeps()
     b = write_if_changed(os.path.join(gen_dir, "Sweeps.lean"), text2)
-    return bool(a) or bool(b)
+    text3, _ = render_sweeps2()
+    c = write_if_changed(os.path.join(gen_dir, "Sweeps2.lean"), text3)
+    return bool(a) or bool(b) or bool(c)
 
 
 if __name__ == "__main__":
@@ -835,5 +1037,11 @@ if __name__ == "__main__":
     old2 = open(gen2).read() if os.path.exists(gen2) else None
     if old2 != text2:
         open(gen2, "w").write(text2)
+    text3, status3 = render_sweeps2()
+    gen3 = os.path.join(LEAN_DIR, "PfVerif", "Generated", "Sweeps2.lean")
+    old3 = open(gen3).read() if os.path.exists(gen3) else None
+    if old3 != text3:
+        open(gen3, "w").write(text3)
+    status2 = dict(status2, **status3)
     for k, v in list(status.items()) + list(status2.items()):
         print(f"extract_fn: {k}: " + ("translated" if v is None else "REFUSED - " + v))
